@@ -226,14 +226,32 @@ Proof.
   - exists 0. split; [lia|]. eapply bump1_mint_other; eauto. discriminate.
 Qed.
 
+Lemma authorize_at_ext c s u cl sc rd v : ext s (fst (do_authorize_at c s u cl sc rd v)).
+Proof.
+  unfold do_authorize_at.
+  match goal with |- context [mint ?a ?b ?c0 ?d ?e ?f ?g ?h] => destruct (mint a b c0 d e f g h) as [[s2 id]| |] eqn:Hm end; cbn [fst].
+  - eapply ext_trans; [|eapply mint_ext; exact Hm]. now apply ext_same_toks.
+  - now apply ext_same_toks.
+  - now apply ext_same_toks.
+Qed.
+(* an authorization request that comes with a session cookie: whichever way it goes, no token moves backwards *)
+Lemma authorize_cookie_ext c s prev u cl sc rd fresh : ext s (fst (do_authorize_cookie c s prev u cl sc rd fresh)).
+Proof.
+  unfold do_authorize_cookie. destruct (nth_error (grants s) prev) as [g|]; [|apply authorize_at_ext].
+  destruct (g_removed g || negb (str_eqb (g_client g) cl)); [apply authorize_at_ext|].
+  destruct (negb (grant_active (now s) g)); [apply ext_refl|].
+  destruct (negb (now s <? g_valid_until g)); [apply ext_refl|].
+  destruct (same_request g sc rd fresh); [|apply authorize_at_ext].
+  match goal with |- context [mint ?a ?b ?c0 ?d ?e ?f ?g ?h] => destruct (mint a b c0 d e f g h) as [[s2 id]| |] eqn:Hm end; cbn [fst].
+  - eapply ext_trans; [|eapply mint_ext; exact Hm]. now apply ext_same_toks.
+  - now apply ext_same_toks.
+  - now apply ext_same_toks.
+Qed.
+
 Lemma step_ext c s o : ext s (fst (step c s o)).
 Proof.
   destruct o; cbn [step].
-  - (* Authorize *) unfold do_authorize.
-    match goal with |- context [mint ?a ?b ?c0 ?d ?e ?f ?g ?h] => destruct (mint a b c0 d e f g h) as [[s2 id]| |] eqn:Hm end; cbn [fst].
-    + eapply ext_trans; [|eapply mint_ext; exact Hm]. now apply ext_same_toks.
-    + now apply ext_same_toks.
-    + now apply ext_same_toks.
+  - (* Authorize *) apply authorize_at_ext.
   - (* TokenParse *) unfold do_token_parse. repeat dm; cbn [fst]; try (now apply ext_same_toks).
     eapply ext_trans; [apply ext_revoke_derived|]. now apply ext_same_toks.
   - (* RefreshParse *) unfold do_refresh_parse. repeat dm; cbn [fst]; now apply ext_same_toks.
@@ -257,6 +275,7 @@ Proof.
     intros k t H. unfold tget in *; cbn. rewrite nth_error_map, H; cbn.
     destruct (in_user g s (t_grant t)); eauto using tok_le_refl, tok_le_revoke.
   - now apply ext_same_toks.
+  - (* AuthorizeCookie *) apply authorize_cookie_ext.
 Qed.
 
 Lemma run_ext c ops : forall s, ext s (fst (run c s ops)).
